@@ -339,6 +339,20 @@ impl End {
     pub fn closes_side(&self, side: usize) -> bool { match self { End::LocalClose(s) => *s == side, End::Inject(s, t) => *s == side && [6u8, 8, 14].contains(t), End::None | End::Script(..) => false } }
 }
 
+/// the same case with the two endpoints' roles exchanged: what A did (configuration, channels it creates, messages, faults
+/// on its packets, closes, teardown) B does and vice versa. Side 0 stays the SCTP client, so the mirrored case makes the
+/// *server* the bulk sender / in-band creator / lossy partially reliable sender.
+pub fn mirror(c: &Case) -> Case {
+    let flip = |s: usize| (s / 2) * 2 + (1 - s % 2);
+    Case {
+        cfg: [c.cfg[1].clone(), c.cfg[0].clone()], chans: [c.chans[1].clone(), c.chans[0].clone()],
+        msgs: c.msgs.iter().map(|m| Msg { side: 1 - m.side, ..m.clone() }).collect(),
+        faults: c.faults.iter().map(|f| Fault { side: 1 - f.side, ..f.clone() }).collect(),
+        deadline: c.deadline, settle: c.settle, closes: c.closes.iter().map(|(s, id)| (flip(*s), *id)).collect(),
+        end: match c.end { End::None => End::None, End::LocalClose(s) => End::LocalClose(1 - s), End::Inject(s, t) => End::Inject(1 - s, t), End::Script(s, n) => End::Script(1 - s, n) },
+    }
+}
+
 /// an SCTP datagram carrying one empty chunk of type `t` (correct CRC-32C; ports / tag as given)
 pub fn control_packet(src: u16, dst: u16, tag: u32, t: u8) -> Bytes {
     let mut p = vec![];
